@@ -99,6 +99,82 @@ theorem dist2Aux_metric (ds : List (Int × Int)) (hw : ∀ d ∈ ds, d.1 < d.2) 
     · rintro rfl
       exact ⟨fun ks hl => dist2Aux_le_img ds hw ks p q hl hp hq, dist2Aux_img_attained ds hw p q hp hq⟩
 
+/-- coordinate by coordinate: following the difference vector from `p` arrives at `q` (bounded space) or at `q` shifted by a
+    whole number of sizes (torus).  The sign convention is the code's: `positions - point`, from the point to the agent. -/
+theorem diffAux_reaches (t : Bool) (ds : List (Int × Int)) (p q : Pos) (hp : p.length = ds.length)
+    (hq : q.length = ds.length) :
+    (diffAux t ds p q).length = ds.length ∧
+    ∀ i, i < ds.length → ∃ x y h d, p[i]? = some x ∧ q[i]? = some y ∧ (diffAux t ds p q)[i]? = some h ∧ ds[i]? = some d ∧
+      (t = false → x + h = y) ∧ (t = true → ∃ k : Int, x + h = y + k * (d.2 - d.1)) := by
+  induction ds generalizing p q with
+  | nil => exact ⟨by cases p <;> cases q <;> simp [diffAux], fun i hi => by simp at hi⟩
+  | cons d ds ih =>
+    cases p with
+    | nil => simp at hp
+    | cons a p =>
+      cases q with
+      | nil => simp at hq
+      | cons b q =>
+        simp only [List.length_cons, Nat.add_right_cancel_iff] at hp hq
+        obtain ⟨h1, h2⟩ := ih p q hp hq
+        refine ⟨by simp [diffAux, h1], fun i hi => ?_⟩
+        cases i with
+        | zero =>
+          refine ⟨a, b, axisHeading t (d.2 - d.1) a b, d, by simp, by simp, by simp [diffAux], by simp, ?_, ?_⟩
+          · rintro rfl; rw [axisHeading_flat]; omega
+          · rintro rfl; exact axisHeading_reaches _ a b
+        | succ i =>
+          obtain ⟨x, y, h, d', e1, e2, e3, e4, e5⟩ := h2 i (by simpa using hi)
+          exact ⟨x, y, h, d', by simpa using e1, by simpa using e2, by simpa [diffAux] using e3, by simpa using e4, e5⟩
+
+/-- the squared distance vanishes exactly when every coordinate pair is equal or, on a torus, a whole number of sizes apart -/
+theorem dist2Aux_eq_zero_iff (t : Bool) (ds : List (Int × Int)) (hw : ∀ d ∈ ds, d.1 < d.2) (p q : Pos)
+    (hp : p.length = ds.length) (hq : q.length = ds.length) :
+    dist2Aux t ds p q = 0 ↔
+      ∀ (i : Nat) (x y : Int) (d : Int × Int), p[i]? = some x → q[i]? = some y → ds[i]? = some d →
+        x = y ∨ (t = true ∧ ∃ k : Int, x - y = k * (d.2 - d.1)) := by
+  induction ds generalizing p q with
+  | nil => simp [dist2Aux]
+  | cons d ds ih =>
+    cases p with
+    | nil => simp at hp
+    | cons a p =>
+      cases q with
+      | nil => simp at hq
+      | cons b q =>
+        simp only [List.length_cons, Nat.add_right_cancel_iff] at hp hq
+        have hs : 0 < d.2 - d.1 := by have := hw d (by simp); omega
+        have hw' : ∀ d' ∈ ds, d'.1 < d'.2 := fun d' hd' => hw d' (by simp [hd'])
+        have n1 := sq_nonneg (axisDist t (d.2 - d.1) a b)
+        have n2 : 0 ≤ dist2Aux t ds p q := by
+          rw [← diffAux_norm2 t ds p q hw']
+          generalize diffAux t ds p q = l
+          induction l with
+          | nil => simp [norm2]
+          | cons x l ihl => have := sq_nonneg x; simp only [norm2]; omega
+        simp only [dist2Aux]
+        constructor
+        · intro h0
+          have z1 : sq (axisDist t (d.2 - d.1) a b) = 0 := by omega
+          have z2 : dist2Aux t ds p q = 0 := by omega
+          intro i x y d' e1 e2 e3
+          cases i with
+          | zero =>
+            simp only [List.getElem?_cons_zero, Option.some.injEq] at e1 e2 e3
+            subst e1 e2 e3
+            have := (axisDist_eq_zero_iff t _ a b hs).mp (sq_eq_zero z1)
+            rwa [iabs_emod_eq_zero_iff] at this
+          | succ i =>
+            simp only [List.getElem?_cons_succ] at e1 e2 e3
+            exact (ih hw' p q hp hq).mp z2 i x y d' e1 e2 e3
+        · intro h
+          have z1 : axisDist t (d.2 - d.1) a b = 0 := by
+            rw [axisDist_eq_zero_iff t _ a b hs, iabs_emod_eq_zero_iff]
+            exact h 0 a b d (by simp) (by simp) (by simp)
+          have z2 : dist2Aux t ds p q = 0 :=
+            (ih hw' p q hp hq).mpr (fun i x y d' e1 e2 e3 => h (i + 1) x y d' (by simpa using e1) (by simpa using e2) (by simpa using e3))
+          rw [z1, z2]; simp [sq]
+
 /-- the legacy space as a 2-row `dimensions` array -/
 def LCfg.dims (c : LCfg) : List (Int × Int) := [(c.xmin, c.xmax), (c.ymin, c.ymax)]
 
